@@ -196,6 +196,19 @@ def matched(ctx, cfg, fs):
     src = provenance(b, push[0].args[1], push[0].bb, 'term', through=DEFAULT_THROUGH + [r'ToString>::to_string$']) if push else []
     ok &= bool(src) and all(q.kind == 'param' and q.path[:1] == ['longs'] for q in src)
     ctx.ob('M.matched', 'ParseCommand::eval:path-pushed-before-inner-run', ok, 'the command name (longs[0]) is pushed on the path before the inner parser runs: %s' % ok, where=push[0].where() if push else b.where(), cfg=cfg)
+    # depth only grows: the path is pushed once per entered command and never popped / truncated / rewritten - its length is the depth
+    # that this_or_that_picks_first compares, also AFTER the command has returned (an adjacent command that pops its name looks as
+    # shallow as the alternative that never entered it)
+    pw = {}
+    for x in fs.bodies.values():
+        for c in x.calls():
+            if c.is_(r'Vec::<std::string::String.*>::(push|pop|truncate|clear|remove|swap_remove|insert|drain|retain|split_off|extend\w*)$') and c.args and \
+                    any('path' in r.path and r.kind == 'param' for r in provenance(x, c.args[0], c.bb, 'term')):
+                pw.setdefault(c.name.split('::')[-1], set()).add(short(outer(x.path)))
+        for i_, k_, st in x.stmts():
+            if st['k'] == 'assign' and any(pr[0] == 'f' and pr[2] == 'path' and pr[4] == 'args::inner::State' for pr in st['lhs'][1]) and st['lhs'][1][-1][0] == 'f' and st['lhs'][1][-1][2] == 'path':
+                pw.setdefault('assign', set()).add(short(outer(x.path)))
+    ctx.ob('M.matched', 'State.path:only-pushed', set(pw) == {'push'} and pw.get('push') == {'ParseCommand::eval'}, 'State.path is written by %s (expected: pushed by ParseCommand::eval only)' % {k_: sorted(v_) for k_, v_ in sorted(pw.items())}, where=b.where(), cfg=cfg)
     # M3: every Ok flows from run_subparser; M4: every inner failure becomes ParseFailure
     srcs_ok = True
     for i in ok_return_blocks(b):
